@@ -16,8 +16,10 @@
 //!   robs r=<room>
 //!   new  k= d= h=<handle> e=<1 Person|2 Pet|3 Note> [room=<r>] v=<int>
 //!   upd  k= d= h=<handle> [room=<r>] [v=<int>]
-//!   nest k= d= h=<handle> [pn=<entity>] [room=<r>] [v=<int>] f=<0 parents|1 pet|2 owner> c=<child>+<child>
-//!        child: h<handle>[:v<int>][:r<room>] (existing row) | n<handle>:v<int>[:r<room>] (new row)
+//!   nest k= d= h=<handle> [pn=<entity>] [room=<r>] [v=<int>] f=<0 parents|1 pet|2 owner> c=<entry>+<entry>…
+//!        the tree below the mutated entity in pre-order, any depth; entry: `.`×depth then
+//!        h<handle>[:v<int>][:r<room>][:f<label>] (existing row) | n<handle>:v<int>[:r<room>][:f<label>] (new row);
+//!        `:f<label>`: the deeper entries that follow are the targets of that reference field of the entry
 //!   null k= d= h=<handle> f=<label>
 //!   del  k= d= h=<handle>
 //!   delref k= d= h=<handle> f=<label> c=<handle>
@@ -84,16 +86,30 @@ pub struct Bench {
     pub pending_room_sync: Option<u64>,
 }
 
+/// one entity below the mutated one (see `parse_children`)
 struct Child {
     handle: u64,
     is_new: bool,
     v: Option<i64>,
     room: Option<u64>,
+    /// reference field of this entity whose targets are `kids`
+    f: Option<usize>,
+    kids: Vec<Child>,
 }
 
-fn parse_children(s: &str) -> Option<Vec<Child>> {
+struct Entry {
+    depth: usize,
+    child: Child,
+}
+
+/// `c=<entry>+<entry>…`: the tree below the mutated entity in pre-order; an entry is `.`×depth followed by
+/// `h<handle>[:v<int>][:r<room>][:f<label>]` (existing row) or `n<handle>:v<int>[:r<room>][:f<label>]` (new row);
+/// `:f<label>` announces that the entries one level deeper that follow are the targets of that field
+fn parse_entries(s: &str) -> Option<Vec<Entry>> {
     let mut res = vec![];
-    for t in s.split('+').filter(|t| !t.is_empty()) {
+    for t0 in s.split('+').filter(|t| !t.is_empty()) {
+        let depth = t0.chars().take_while(|c| *c == '.').count();
+        let t = &t0[depth..];
         let parts: Vec<&str> = t.split(':').collect();
         let head = parts[0];
         let (is_new, num) = if let Some(n) = head.strip_prefix('h') {
@@ -106,11 +122,14 @@ fn parse_children(s: &str) -> Option<Vec<Child>> {
         let handle = num.parse::<u64>().ok()?;
         let mut v = None;
         let mut room = None;
+        let mut f = None;
         for p in &parts[1..] {
             if let Some(x) = p.strip_prefix('v') {
                 v = Some(x.parse::<i64>().ok()?);
             } else if let Some(x) = p.strip_prefix('r') {
                 room = Some(x.parse::<u64>().ok()?);
+            } else if let Some(x) = p.strip_prefix('f') {
+                f = Some(x.parse::<usize>().ok()?);
             } else {
                 return None;
             }
@@ -118,12 +137,67 @@ fn parse_children(s: &str) -> Option<Vec<Child>> {
         if is_new && v.is_none() {
             return None;
         }
-        res.push(Child { handle, is_new, v, room });
+        res.push(Entry { depth, child: Child { handle, is_new, v, room, f, kids: vec![] } });
     }
     if res.is_empty() {
         None
     } else {
         Some(res)
+    }
+}
+
+/// the entities of one level, each followed by its own sub-entities one level deeper (`dst_e`: the entity the
+/// enclosing field points to); `None`: the listing is not a tree of the data model
+fn forest(entries: &mut std::iter::Peekable<std::vec::IntoIter<Entry>>, depth: usize, dst_e: usize) -> Option<Vec<Child>> {
+    let mut res = vec![];
+    loop {
+        match entries.peek() {
+            None => return Some(res),
+            Some(e) if e.depth < depth => return Some(res),
+            Some(e) if e.depth > depth => return None,
+            Some(_) => {}
+        }
+        let mut c = entries.next().unwrap().child;
+        match c.f {
+            None => {
+                if let Some(x) = entries.peek() {
+                    if x.depth > depth {
+                        return None;
+                    }
+                }
+            }
+            Some(f) => {
+                if f >= 3 || label_types(f).0 != dst_e {
+                    return None;
+                }
+                let kids = forest(entries, depth + 1, label_types(f).1)?;
+                if kids.is_empty() || (f != 0 && kids.len() != 1) {
+                    return None;
+                }
+                c.kids = kids;
+            }
+        }
+        res.push(c);
+    }
+}
+
+fn parse_children(s: &str, dst_e: usize) -> Option<Vec<Child>> {
+    let entries = parse_entries(s)?;
+    let mut it = entries.into_iter().peekable();
+    let res = forest(&mut it, 0, dst_e)?;
+    if it.peek().is_some() || res.is_empty() {
+        return None;
+    }
+    Some(res)
+}
+
+/// (handle, new?, entity) of every entity of the forest, in pre-order
+fn tree_handles(kids: &[Child], dst_e: usize, out: &mut Vec<(u64, bool, usize)>) {
+    for c in kids {
+        out.push((c.handle, c.is_new, dst_e));
+        if let Some(f) = c.f {
+            tree_handles(&c.kids, label_types(f).1, out);
+        }
     }
 }
 
@@ -663,13 +737,70 @@ impl Bench {
         self.finish(res)
     }
 
+    /// the text of the sub-entities of one reference field, the parameters they need (numbered in pre-order)
+    fn emit_children(
+        &self,
+        kids: &[Child],
+        f: usize,
+        counter: &mut usize,
+        p: &mut Vec<(String, String)>,
+    ) -> Result<String, ()> {
+        let dst_e = label_types(f).1;
+        let mut subs = String::new();
+        for c in kids {
+            let i = *counter;
+            *counter += 1;
+            let mut cq = String::new();
+            if !c.is_new {
+                match self.handles.get(&c.handle) {
+                    Some((id, e)) if *e == dst_e => {
+                        p.push((format!("c{}", i), base64_encode(id)));
+                        cq.push_str(&format!("id:$c{} ", i));
+                    }
+                    _ => return Err(()),
+                }
+            }
+            cq.push_str(&self.room_param(c.room, &format!("cr{}", i), p)?);
+            if let Some(v) = c.v {
+                p.push((format!("cv{}", i), format!("v{}", v)));
+                cq.push_str(&format!("{}:$cv{} ", scalar_field(dst_e), i));
+            }
+            if let Some(cf) = c.f {
+                cq.push_str(&self.emit_children(&c.kids, cf, counter, p)?);
+            }
+            subs.push_str(&format!("{{ {}}}, ", cq));
+        }
+        if f == 0 {
+            Ok(format!("{}:[{}] ", LABELS[f], subs))
+        } else {
+            Ok(format!("{}:{} ", LABELS[f], subs.trim_end_matches(", ")))
+        }
+    }
+
+    /// binds the handles of the rows created by an accepted nested mutation
+    fn bind_new(&mut self, ent: &InsertEntity, kids: &[Child], f: usize) {
+        let dst_e = label_types(f).1;
+        let subs = match ent.sub_nodes.get(LABELS[f]) {
+            Some(s) => s,
+            None => return,
+        };
+        for (i, c) in kids.iter().enumerate() {
+            if c.is_new {
+                self.handles.insert(c.handle, (subs[i].node_to_mutate.id, dst_e));
+            }
+            if let Some(cf) = c.f {
+                self.bind_new(&subs[i], &c.kids, cf);
+            }
+        }
+    }
+
     pub fn op_nest(&mut self, kv: &Kv) -> String {
         let (k, d, h, f) = match (get_u(kv, "k"), get_i(kv, "d"), get_u(kv, "h"), get_u(kv, "f")) {
             (Some(k), Some(d), Some(h), Some(f)) if f < 3 => (k, d, h, f as usize),
             _ => return "bad-op".into(),
         };
         let (src_e, dst_e) = label_types(f);
-        let children = match kv.get("c").and_then(|c| parse_children(c)) {
+        let children = match kv.get("c").and_then(|c| parse_children(c, dst_e)) {
             Some(c) => c,
             None => return "bad-op".into(),
         };
@@ -677,7 +808,7 @@ impl Bench {
             return "bad-op".into();
         }
         let mut p: Vec<(String, String)> = vec![];
-        // parent
+        // the mutated entity
         let parent_new = kv.get("pn").is_some();
         let mut q = String::new();
         if parent_new {
@@ -685,17 +816,28 @@ impl Bench {
                 Some(e) if e as usize == src_e => {}
                 _ => return "bad-op".into(),
             }
-            if self.handles.contains_key(&h) || kv.get("v").is_none() {
+            if kv.get("v").is_none() {
                 return "bad-op".into();
             }
-        } else {
-            match self.handles.get(&h) {
-                Some((id, e)) if *e == src_e => {
-                    p.push(("i".to_string(), base64_encode(id)));
-                    q.push_str("id:$i ");
-                }
+        }
+        // handles: distinct over the whole tree; a new entity's handle is free, an existing one's is bound to the
+        // entity its field points to
+        let mut hs: Vec<(u64, bool, usize)> = vec![(h, parent_new, src_e)];
+        tree_handles(&children, dst_e, &mut hs);
+        for (i, (hh, is_new, e)) in hs.iter().enumerate() {
+            if hs[..i].iter().any(|x| x.0 == *hh) {
+                return "bad-op".into();
+            }
+            match self.handles.get(hh) {
+                None if *is_new => {}
+                Some((_, e0)) if !*is_new && e0 == e => {}
                 _ => return "bad-op".into(),
             }
+        }
+        if !parent_new {
+            let id = self.handles.get(&h).unwrap().0;
+            p.push(("i".to_string(), base64_encode(&id)));
+            q.push_str("id:$i ");
         }
         match self.room_param(get_u(kv, "room"), "r", &mut p) {
             Ok(s) => q.push_str(&s),
@@ -710,57 +852,23 @@ impl Bench {
                 Err(_) => return "bad-op".into(),
             }
         }
-        // children
-        let mut seen: Vec<u64> = vec![];
-        let mut subs = String::new();
-        for (i, c) in children.iter().enumerate() {
-            if seen.contains(&c.handle) {
-                return "bad-op".into();
-            }
-            seen.push(c.handle);
-            let mut cq = String::new();
-            if c.is_new {
-                if self.handles.contains_key(&c.handle) || (parent_new && c.handle == h) {
-                    return "bad-op".into();
-                }
-            } else {
-                match self.handles.get(&c.handle) {
-                    Some((id, e)) if *e == dst_e => {
-                        p.push((format!("c{}", i), base64_encode(id)));
-                        cq.push_str(&format!("id:$c{} ", i));
-                    }
-                    _ => return "bad-op".into(),
-                }
-            }
-            match self.room_param(c.room, &format!("cr{}", i), &mut p) {
-                Ok(s) => cq.push_str(&s),
-                Err(()) => return "bad-op".into(),
-            }
-            if let Some(v) = c.v {
-                p.push((format!("cv{}", i), format!("v{}", v)));
-                cq.push_str(&format!("{}:$cv{} ", scalar_field(dst_e), i));
-            }
-            subs.push_str(&format!("{{ {}}}, ", cq));
-        }
-        if f == 0 {
-            q.push_str(&format!("{}:[{}] ", LABELS[f], subs));
-        } else {
-            q.push_str(&format!("{}:{} ", LABELS[f], subs.trim_end_matches(", ")));
+        let mut counter = 0usize;
+        match self.emit_children(&children, f, &mut counter, &mut p) {
+            Ok(s) => q.push_str(&s),
+            Err(()) => return "bad-op".into(),
         }
         let q = format!("mutate {{ {} {{ {}}} }}", ENT_NAMES[src_e], q);
-        let res = self.run_mutation(k, d, &q, &p).map(|mq| {
-            let ent = &mq.mutate_entities[0];
-            if parent_new {
-                self.handles.insert(h, (ent.node_to_mutate.id, src_e));
-            }
-            if let Some(sub) = ent.sub_nodes.get(LABELS[f]) {
-                for (i, c) in children.iter().enumerate() {
-                    if c.is_new {
-                        self.handles.insert(c.handle, (sub[i].node_to_mutate.id, dst_e));
-                    }
+        let res = match self.run_mutation(k, d, &q, &p) {
+            Ok(mq) => {
+                let ent = &mq.mutate_entities[0];
+                if parent_new {
+                    self.handles.insert(h, (ent.node_to_mutate.id, src_e));
                 }
+                self.bind_new(ent, &children, f);
+                Ok(())
             }
-        });
+            Err(e) => Err(e),
+        };
         self.finish(res)
     }
 
